@@ -208,6 +208,13 @@ func main() {
 			emit(map[string]interface{}{"t": "machinery", "i": idx, "detail": v.Machinery})
 			continue
 		}
+		if v.Class == "race" {
+			rep := raceReport()
+			if rep != "" {
+				v.Sig = "race " + raceSig(rep)
+				v.Detail += "\n" + clip(rep, 6000)
+			}
+		}
 		if v.Class != "" {
 			a.Violations++
 			perSig[v.Sig]++
@@ -247,6 +254,52 @@ func main() {
 	sort.Strings(a.Traces)
 	a.WallS = time.Since(t0).Seconds()
 	emit(a)
+}
+
+var raceOff int64
+
+// raceReport returns what the race detector appended to its log since the last call.
+func raceReport() string {
+	var path string
+	for _, f := range strings.Fields(os.Getenv("GORACE")) {
+		if strings.HasPrefix(f, "log_path=") {
+			path = strings.TrimPrefix(f, "log_path=") + "." + fmt.Sprint(os.Getpid())
+		}
+	}
+	if path == "" {
+		return ""
+	}
+	b, err := os.ReadFile(path)
+	if err != nil || int64(len(b)) <= raceOff {
+		return ""
+	}
+	s := string(b[raceOff:])
+	raceOff = int64(len(b))
+	return s
+}
+
+// raceSig is the sorted pair of innermost library functions of the first report's two stacks.
+func raceSig(rep string) string {
+	var fns []string
+	lines := strings.Split(rep, "\n")
+	for i := 0; i < len(lines) && len(fns) < 2; i++ {
+		l := lines[i]
+		if strings.HasPrefix(l, "Read at") || strings.HasPrefix(l, "Write at") || strings.HasPrefix(l, "Previous read") || strings.HasPrefix(l, "Previous write") ||
+			strings.HasPrefix(l, "Atomic") || strings.HasPrefix(l, "Previous atomic") {
+			for j := i + 1; j < len(lines) && strings.TrimSpace(lines[j]) != ""; j++ {
+				f := strings.TrimSpace(lines[j])
+				if strings.HasPrefix(f, "github.com/SAP/go-dblib/") && !strings.Contains(f, "/zz_verif/") {
+					if k := strings.LastIndex(f, "("); k > 0 {
+						f = f[:k]
+					}
+					fns = append(fns, strings.TrimPrefix(f, "github.com/SAP/go-dblib/"))
+					break
+				}
+			}
+		}
+	}
+	sort.Strings(fns)
+	return "{" + strings.Join(fns, ",") + "}"
 }
 
 func orOK(s string) string {
